@@ -226,7 +226,7 @@ Example c11_nonvacuous_nonoverlap :
 Proof.
   split; [unfold nv_file2; cbn [rf_funcs rf_publics rf_win_fd rf_win_fpo]; wf_tac|].
   split; [|repeat split; vm_compute; reflexivity].
-  unfold non_overlapping, nv_file2, func_dj, line_dj, inl_dj, occ_disjoint; cbn.
+  unfold non_overlapping, nv_file2, func_dj, line_dj, inl_dj, win_dj, occ_disjoint; cbn.
   repeat (first [apply Forall_nil | apply Forall_cons | split]); cbn; try lia; try (right; lia).
 Qed.
 Example c11_nonvacuous_run :
